@@ -33,6 +33,25 @@ class Codec:
         return to_z3(v)
 
 
+class ListCodec(Codec):
+    """python lists of exactly n numbers, stored as z3 arrays Int -> Real (a pure term: no side assumptions)"""
+
+    def __init__(self, n):
+        super().__init__(z3.ArraySort(z3.IntSort(), z3.RealSort()), name=f"list of {n} numbers")
+        self.inner_len = n
+
+    def wrap(self, e):
+        return [SV(z3.Select(e, z3.IntVal(q)), "real") for q in range(self.inner_len)]
+
+    def unwrap(self, v):
+        if not (isinstance(v, list) and len(v) == self.inner_len):
+            raise OutOfSubset(f"value stored into a collection of {self.name}")
+        a = z3.K(z3.IntSort(), z3.RealVal(0))
+        for q, x in enumerate(v):
+            a = z3.Store(a, z3.IntVal(q), to_z3(x, "real"))
+        return a
+
+
 INT = Codec(z3.IntSort())
 REAL = Codec(z3.RealSort())
 STR = Codec(z3.StringSort())
@@ -307,6 +326,27 @@ class SSeq(Symbolic):
             return seq_concat(it, a, b, node)
         return NotImplemented
 
+    def _deepcopy(self, it, memo):
+        return SSeq(it.cx, self.ec, self.name + "'", self.length, self.arr, self.pytype)
+
+    def _getattr(self, it, name, node=None):
+        from .models import SymCallable
+        if name == "append" and self.pytype is list:
+            def append(it_, x):
+                # in-place: the list object keeps its identity, its abstract value grows by one element
+                self.arr = z3.Store(self.arr, self.length, self.ec.unwrap(x))
+                self.length = z3.simplify(self.length + 1)
+                self._slices = {}
+                it_.cx.log_write(("sseq", id(self), None))
+                return None
+            return SymCallable(append, "list.append")
+        if name == "copy" and self.pytype is list:
+            return SymCallable(lambda it_: SSeq(it_.cx, self.ec, self.name + "'", self.length, self.arr, list), "list.copy")
+        raise OutOfSubset(f"method {name} on a symbolic {self.pytype.__name__}", node)
+
+    def _enumerate(self, it, start=0):
+        return SEnum(self, start)
+
     def _to_tuple(self, it):
         return SSeq(it.cx, self.ec, self.name, self.length, self.arr, tuple)
 
@@ -368,6 +408,18 @@ def seq_from_list(cx, ec: Codec, items, pytype=list, name="lit"):
     x = z3.Const(cx.fresh_name("xl"), ec.sort)
     cx.assume(z3.ForAll([x], member_formula(out, x) == out.mem(x)))
     return out
+
+
+class SEnum(Symbolic):
+    """enumerate(seq) of a sequence of unknown length"""
+    _symbolic_iterable = True
+
+    def __init__(self, seq, start=0):
+        self.seq, self.start = seq, start
+
+    def _loop_view(self, it):
+        seq, st = self.seq, to_z3(self.start, "int")
+        return seq.length, (lambda j: (SV(z3.simplify(j + st), "int"), seq.ec.wrap(seq.at(j)))), (lambda j: j)
 
 
 class SZip(Symbolic):
